@@ -92,6 +92,7 @@ def gen_history(rng):
             msg.append([p, _PORDER[t]])
         msgs.append(msg)
     return {'pids': pids, 'messages': msgs,
+            'payload' : rng.random() < 0.5,
             'cb_style': rng.randint(1, 2 ** 30) if rng.random() < 0.35
                         else None}, anomalies
 
@@ -180,6 +181,22 @@ def run_history(case, res):
 
         res.count('messages')
         things = [{'uid': p, 'type': 'pilot', 'state': s} for p, s in msg]
+        if case.get('payload'):
+            # what real notifications carry besides the state: the agent's
+            # PMGR_ACTIVE update comes with the full pilot record ('$all':
+            # resources incl. the RM info, a rest_url which is None), final
+            # updates with the record the launcher / agent kept
+            for t in things:
+                if t['state'] == rps.PMGR_ACTIVE:
+                    t.update({'rest_url' : None,
+                              'resources': {'rm_info': {'cores_per_node': 4,
+                                                        'gpus_per_node' : 0,
+                                                        'node_list'     : []},
+                                            'cpu': 8, 'gpu': 0}})
+                    res.count('notifications_with_resources')
+                elif t['state'] in FINAL_STATES:
+                    t.update({'stdout': None, 'stderr': '', 'logfile': None,
+                              'resources': None})
         before = {p: pilots[p].state for p in pilots}
         n0 = len(seen_mgr)
         exc = None
